@@ -78,13 +78,48 @@ Proof.
   eexists; split; [reflexivity | apply read_nifti_ras; assumption].
 Qed.
 
-(* vector-valued NIfTI files in ITK's layout are rejected by the reader of the tree as it is *)
-Lemma nifti_read_itk_vector_fails (D : nat) (x : image) :
-  D = 2%nat \/ D = 3%nat -> (2 <= i_chan x)%nat -> read_nifti (itk_write_nii D x) = None.
+(* FULL (after the repair of nifti.py): ITK-written files of every layout are read back; the native round trip is exact *)
+Lemma nifti_r_status_ok L D C : D = 2%nat \/ D = 3%nat -> (L = LScalar /\ C = 1%nat) \/ (L = LItkVector /\ (2 <= C)%nat) -> nifti_r_status L D C = ROk.
 Proof.
-  intros HD HC. unfold read_nifti, itk_write_nii. cbn [n_layout n_ndim n_chan].
-  assert (Hc : Nat.eqb (i_chan x) 1 = false) by (apply Nat.eqb_neq; lia).
-  unfold nifti_r_status. rewrite Hc. destruct HD as [-> | ->]; vm_compute; reflexivity.
+  intros HD [[-> ->] | [-> HC]]; unfold nifti_r_status.
+  - destruct HD as [-> | ->]; vm_compute; reflexivity.
+  - assert (Hc : Nat.eqb C 1 = false) by (apply Nat.eqb_neq; lia). rewrite Hc. destruct HD as [-> | ->]; vm_compute; reflexivity.
+Qed.
+
+Lemma nifti_read_itk (D : nat) (x : image) :
+  D = 2%nat \/ D = 3%nat -> wf_image D x -> In (i_type x) torch_types -> Forall (fun s => s <> 0) (i_spacing x) ->
+  read_nifti (itk_write_nii D x) = Some x.
+Proof.
+  intros HD H Ht Hs. apply nifti_read_itk_cond; auto.
+  destruct (Nat.eqb (i_chan x) 1) eqn:E; apply nifti_r_status_ok; auto.
+  - left. split; [reflexivity | now apply Nat.eqb_eq].
+  - right. split; [reflexivity |]. apply Nat.eqb_neq in E. destruct H as (_ & _ & _ & _ & _ & HC & _). lia.
+Qed.
+
+Lemma nifti_affine_ok (D : nat) (x : image) :
+  D = 2%nat \/ D = 3%nat -> wf_image D x ->
+  sel D (gen_nifti_w_affine_2 (i_origin x) (i_spacing x) (i_dir x)) (gen_nifti_w_affine_3 (i_origin x) (i_spacing x) (i_dir x)) None
+    = Some (lps_to_ras_affine D (i_origin x) (i_spacing x) (i_dir x)).
+Proof.
+  intros [-> | ->] H; [explode2 x H | explode3 x H]; cbn; f_equal; list_eq; ring.
+Qed.
+
+Lemma nifti_roundtrip (D : nat) (x : image) :
+  D = 2%nat \/ D = 3%nat -> wf_image D x -> In (i_type x) torch_types -> Forall (fun s => s <> 0) (i_spacing x) ->
+  exists f, write_nifti D x = Some f /\ read_nifti f = Some x.
+Proof.
+  intros HD H Ht Hsp.
+  destruct (Nat.eqb (i_chan x) 1) eqn:E.
+  - apply (nifti_roundtrip_cond LScalar); auto.
+    + unfold nifti_w_status, cclass. rewrite E. destruct HD as [-> | ->]; vm_compute; reflexivity.
+    + unfold nifti_w_layout, cclass. rewrite E. destruct HD as [-> | ->]; vm_compute; reflexivity.
+    + apply nifti_affine_ok; assumption.
+    + apply nifti_r_status_ok; auto. left. split; [reflexivity | now apply Nat.eqb_eq].
+  - apply (nifti_roundtrip_cond LItkVector); auto.
+    + unfold nifti_w_status, cclass. rewrite E. destruct HD as [-> | ->]; vm_compute; reflexivity.
+    + unfold nifti_w_layout, cclass. rewrite E. destruct HD as [-> | ->]; vm_compute; reflexivity.
+    + apply nifti_affine_ok; assumption.
+    + apply nifti_r_status_ok; auto. right. split; [reflexivity |]. apply Nat.eqb_neq in E. destruct H as (_ & _ & _ & _ & _ & HC & _). lia.
 Qed.
 
 (* ---------------------------------------------------------------------------------------------- *)
